@@ -195,7 +195,7 @@ impl Real {
         static RT: std::sync::OnceLock<tokio::runtime::Runtime> = std::sync::OnceLock::new();
         let rt = RT.get_or_init(|| tokio::runtime::Builder::new_current_thread().enable_all().build().unwrap());
         let ts = TensorStore::new();
-        let blob = rt.block_on(BlobStore::new(ts.clone(), cfg(chunk, max))).unwrap();
+        let blob = bo(BlobStore::new(ts.clone(), cfg(chunk, max))).unwrap();
         Real {
             rt,
             ts,
@@ -253,10 +253,10 @@ impl Real {
     }
     fn image(&self) -> String {
         let mut arts: Vec<(usize, String)> = Vec::new();
-        let listed = self.rt.block_on(self.blob.list(None)).unwrap_or_default();
+        let listed = bo(self.blob.list(None)).unwrap_or_default();
         for id in listed {
             let idx = self.ids.iter().position(|x| *x == id);
-            let g = match self.rt.block_on(self.blob.get(&id)) {
+            let g = match bo(self.blob.get(&id)) {
                 Ok(d) => format!("ok:{}", hex(&d)),
                 Err(e) => err_class(&e).to_string(),
             };
@@ -264,7 +264,7 @@ impl Real {
                 Ok(b) => b.to_string(),
                 Err(e) => err_class(&e).to_string(),
             };
-            let (sz, cc) = match self.rt.block_on(self.blob.metadata(&id)) {
+            let (sz, cc) = match bo(self.blob.metadata(&id)) {
                 Ok(m) => (m.size, m.chunk_count),
                 Err(_) => (usize::MAX, usize::MAX),
             };
@@ -293,6 +293,17 @@ impl Real {
     }
 }
 
+/// The blob store's async functions never suspend (no await point that can pend) except the background task:
+/// poll them once with a no-op waker instead of going through a tokio runtime.
+fn bo<F: std::future::Future>(f: F) -> F::Output {
+    let mut f = std::pin::pin!(f);
+    let mut cx = std::task::Context::from_waker(std::task::Waker::noop());
+    match f.as_mut().poll(&mut cx) {
+        std::task::Poll::Ready(x) => x,
+        std::task::Poll::Pending => panic!("a tensor_blob future suspended outside the background task"),
+    }
+}
+
 /// `min_age` that makes gc_cycle collect exactly the records stamped with a tick <= `thr`
 fn min_age_for(thr: u64) -> Duration {
     let real_min_created = thr * LT as u64 + (LT as u64) / 2;
@@ -311,12 +322,12 @@ fn record_calls<T>(f: impl FnOnce() -> T) -> (T, Vec<(&'static str, String)>) {
 }
 
 /// streaming read of a whole artifact through `BlobReader::read` with buffers of `buf` bytes
-fn read_by_buffers(rt: &tokio::runtime::Runtime, blob: &BlobStore, id: &str, buf: usize) -> Result<Vec<u8>, String> {
-    let mut rd = rt.block_on(blob.reader(id)).map_err(|e| err_class(&e).to_string())?;
+fn read_by_buffers(blob: &BlobStore, id: &str, buf: usize) -> Result<Vec<u8>, String> {
+    let mut rd = bo(blob.reader(id)).map_err(|e| err_class(&e).to_string())?;
     let mut out = Vec::new();
     let mut b = vec![0u8; buf.max(1)];
     loop {
-        let n = rt.block_on(rd.read(&mut b)).map_err(|e| err_class(&e).to_string())?;
+        let n = bo(rd.read(&mut b)).map_err(|e| err_class(&e).to_string())?;
         if n == 0 {
             break;
         }
@@ -366,7 +377,7 @@ fn run_case(m: &mut Model, rep: &mut Report, stream: &str, chunk: usize, max: Op
         let mut wrote_now: Option<(usize, Vec<u8>)> = None;
         let (line, imp): (String, String) = match op {
             Op::Put(d) => {
-                let res = r.rt.block_on(r.blob.put("f", d, PutOptions::default()));
+                let res = bo(r.blob.put("f", d, PutOptions::default()));
                 let a = match res {
                     Ok(id) => {
                         let ix = r.alpha(&id);
@@ -379,17 +390,17 @@ fn run_case(m: &mut Model, rep: &mut Report, stream: &str, chunk: usize, max: Op
             }
             Op::Stream(ps) | Op::Abandon(ps) => {
                 let fin = matches!(op, Op::Stream(_));
-                let mut w = r.rt.block_on(r.blob.writer("f", PutOptions::default())).unwrap();
+                let mut w = bo(r.blob.writer("f", PutOptions::default())).unwrap();
                 let mut all = Vec::new();
                 let mut err = None;
                 for p in ps {
                     all.extend_from_slice(p);
-                    if let Err(e) = r.rt.block_on(w.write(p)) {
+                    if let Err(e) = bo(w.write(p)) {
                         err = Some(err_class(&e).to_string());
                     }
                 }
                 if fin {
-                    let a = match r.rt.block_on(w.finish()) {
+                    let a = match bo(w.finish()) {
                         Ok(id) => {
                             let ix = r.alpha(&id);
                             wrote_now = Some((ix, all));
@@ -405,19 +416,18 @@ fn run_case(m: &mut Model, rep: &mut Report, stream: &str, chunk: usize, max: Op
                 }
             }
             Op::WOpen(wid) => {
-                let w = r.rt.block_on(r.blob.writer("f", PutOptions::default())).unwrap();
+                let w = bo(r.blob.writer("f", PutOptions::default())).unwrap();
                 r.writers.insert(*wid, OpenWriter { w, bytes: vec![], lost_to: BTreeSet::new() });
                 r.slack = true;
                 (format!("wopen {wid}"), "ok".into())
             }
             Op::WWrite(wid, d) => {
                 let line = format!("wwrite {wid} {t} {}", hex(d));
-                let rt = &r.rt;
                 match r.writers.get_mut(wid) {
                     None => (line, "bad-op".into()),
                     Some(ow) => {
                         ow.bytes.extend_from_slice(d);
-                        let a = match rt.block_on(ow.w.write(d)) {
+                        let a = match bo(ow.w.write(d)) {
                             Ok(()) => format!("ok {} {}", ow.w.chunks_written(), ow.w.bytes_written()),
                             Err(e) => err_class(&e).to_string(),
                         };
@@ -429,11 +439,11 @@ fn run_case(m: &mut Model, rep: &mut Report, stream: &str, chunk: usize, max: Op
                 let line = format!("wfinish {wid} {t}");
                 match r.writers.remove(wid) {
                     None => (line, "bad-op".into()),
-                    Some(ow) => (line, match r.rt.block_on(ow.w.finish()) {
+                    Some(ow) => (line, match bo(ow.w.finish()) {
                         Ok(id) => {
                             let ix = r.alpha(&id);
                             // oracle O1 for a streamed artifact that overlapped other operations
-                            let back = r.rt.block_on(r.blob.get(&id));
+                            let back = bo(r.blob.get(&id));
                             if !r.damaged && back.as_ref().ok() != Some(&ow.bytes) {
                                 let site = ow.lost_to.iter().next().copied().unwrap_or("writer");
                                 let class = format!("tensor_blob.{site}/live_chunk_collected");
@@ -456,7 +466,7 @@ fn run_case(m: &mut Model, rep: &mut Report, stream: &str, chunk: usize, max: Op
             }
             Op::Get(a) => {
                 let id = r.uuid_of(*a);
-                let x = match r.rt.block_on(r.blob.get(&id)) {
+                let x = match bo(r.blob.get(&id)) {
                     Ok(d) => format!("ok {}", hex(&d)),
                     Err(e) => err_class(&e).to_string(),
                 };
@@ -464,7 +474,7 @@ fn run_case(m: &mut Model, rep: &mut Report, stream: &str, chunk: usize, max: Op
             }
             Op::Delete(a) => {
                 let id = r.uuid_of(*a);
-                let x = match r.rt.block_on(r.blob.delete(&id)) {
+                let x = match bo(r.blob.delete(&id)) {
                     Ok(()) => {
                         r.expect.insert(*a as usize, None);
                         out.changed = true;
@@ -487,8 +497,8 @@ fn run_case(m: &mut Model, rep: &mut Report, stream: &str, chunk: usize, max: Op
                 let thr = t.saturating_sub(*back); // records with created <= thr are old enough
                 let real_min_created = thr * LT as u64 + (LT as u64) / 2;
                 let min_age = now_secs().saturating_sub(real_min_created);
-                let b = r.rt.block_on(BlobStore::new(r.ts.clone(), cfg(chunk, max).with_gc_min_age(Duration::from_secs(min_age)))).unwrap();
-                let s = r.rt.block_on(b.gc()).unwrap();
+                let b = bo(BlobStore::new(r.ts.clone(), cfg(chunk, max).with_gc_min_age(Duration::from_secs(min_age)))).unwrap();
+                let s = bo(b.gc()).unwrap();
                 if s.deleted > 0 {
                     out.changed = true;
                 }
@@ -496,13 +506,13 @@ fn run_case(m: &mut Model, rep: &mut Report, stream: &str, chunk: usize, max: Op
             }
             Op::GcSat => {
                 collector = Some("gc");
-                let b = r.rt.block_on(BlobStore::new(r.ts.clone(), cfg(chunk, max).with_gc_min_age(Duration::from_secs(u64::MAX)))).unwrap();
-                let s = r.rt.block_on(b.gc()).unwrap();
+                let b = bo(BlobStore::new(r.ts.clone(), cfg(chunk, max).with_gc_min_age(Duration::from_secs(u64::MAX)))).unwrap();
+                let s = bo(b.gc()).unwrap();
                 (format!("gc {t} {}", t + 5), format!("ok {} {}", s.deleted, s.freed_bytes))
             }
             Op::FullGc => {
                 collector = Some("full_gc");
-                let x = match r.rt.block_on(r.blob.full_gc()) {
+                let x = match bo(r.blob.full_gc()) {
                     Ok(s) => {
                         if s.deleted > 0 {
                             out.changed = true;
@@ -550,13 +560,13 @@ fn run_case(m: &mut Model, rep: &mut Report, stream: &str, chunk: usize, max: Op
             }
             Op::Exists(a) => {
                 let id = r.uuid_of(*a);
-                (format!("exists a{a}"), match r.rt.block_on(r.blob.exists(&id)) {
+                (format!("exists a{a}"), match bo(r.blob.exists(&id)) {
                     Ok(b) => format!("ok {b}"),
                     Err(e) => err_class(&e).to_string(),
                 })
             }
             Op::Stats => {
-                let x = match r.rt.block_on(r.blob.stats()) {
+                let x = match bo(r.blob.stats()) {
                     Ok(s) => {
                         // count_orphans is the same number by another route
                         let gcx = GarbageCollector::new(r.ts.clone(), GcConfig::default());
@@ -601,13 +611,13 @@ fn run_case(m: &mut Model, rep: &mut Report, stream: &str, chunk: usize, max: Op
                 let id = r.uuid_of(*a);
                 let b = &r.blob;
                 let res = match kind % 7 {
-                    0 => r.rt.block_on(b.set_meta(&id, "k", "v")),
-                    1 => r.rt.block_on(b.tag(&id, "t1")),
-                    2 => r.rt.block_on(b.untag(&id, "t1")),
-                    3 => r.rt.block_on(b.link(&id, "task:1")),
-                    4 => r.rt.block_on(b.unlink(&id, "task:1")),
-                    5 => r.rt.block_on(b.update_metadata(&id, MetadataUpdates::new().with_filename("g").set_meta("x", "y").delete_meta("k"))),
-                    _ => r.rt.block_on(b.update_metadata(&id, MetadataUpdates::new().with_content_type("text/plain"))),
+                    0 => bo(b.set_meta(&id, "k", "v")),
+                    1 => bo(b.tag(&id, "t1")),
+                    2 => bo(b.untag(&id, "t1")),
+                    3 => bo(b.link(&id, "task:1")),
+                    4 => bo(b.unlink(&id, "task:1")),
+                    5 => bo(b.update_metadata(&id, MetadataUpdates::new().with_filename("g").set_meta("x", "y").delete_meta("k"))),
+                    _ => bo(b.update_metadata(&id, MetadataUpdates::new().with_content_type("text/plain"))),
                 };
                 (format!("touch a{a}"), match res {
                     Ok(()) => "ok".to_string(),
@@ -617,8 +627,8 @@ fn run_case(m: &mut Model, rep: &mut Report, stream: &str, chunk: usize, max: Op
             Op::GcBatch { back, b } => {
                 collector = Some("gc");
                 let thr = t.saturating_sub(*back);
-                let bs = r.rt.block_on(BlobStore::new(r.ts.clone(), cfg(chunk, max).with_gc_batch_size(*b).with_gc_min_age(min_age_for(thr)))).unwrap();
-                let (s, calls) = record_calls(|| r.rt.block_on(bs.gc()).unwrap());
+                let bs = bo(BlobStore::new(r.ts.clone(), cfg(chunk, max).with_gc_batch_size(*b).with_gc_min_age(min_age_for(thr)))).unwrap();
+                let (s, calls) = record_calls(|| bo(bs.gc()).unwrap());
                 if s.deleted > 0 {
                     out.changed = true;
                 }
@@ -654,7 +664,7 @@ fn run_case(m: &mut Model, rep: &mut Report, stream: &str, chunk: usize, max: Op
             }
             Op::ROpen(rid, a) => {
                 let id = r.uuid_of(*a);
-                let x = match r.rt.block_on(r.blob.reader(&id)) {
+                let x = match bo(r.blob.reader(&id)) {
                     Ok(rd) => {
                         let a = format!("ok {} {}", rd.chunk_count(), rd.total_size());
                         r.readers.insert(*rid, rd);
@@ -665,11 +675,10 @@ fn run_case(m: &mut Model, rep: &mut Report, stream: &str, chunk: usize, max: Op
                 (format!("ropen {rid} a{a}"), x)
             }
             Op::RNext(rid) => {
-                let rt = &r.rt;
                 let x = match r.readers.get_mut(rid) {
                     None => "bad-op".to_string(),
                     Some(rd) => {
-                        let a = match rt.block_on(rd.next_chunk()) {
+                        let a = match bo(rd.next_chunk()) {
                             Ok(Some(d)) => format!("ok {}", hex(&d)),
                             Ok(None) => "ok eof".to_string(),
                             Err(e) => err_class(&e).to_string(),
@@ -680,12 +689,11 @@ fn run_case(m: &mut Model, rep: &mut Report, stream: &str, chunk: usize, max: Op
                 (format!("rnext {rid}"), x)
             }
             Op::RRead(rid, n) => {
-                let rt = &r.rt;
                 let x = match r.readers.get_mut(rid) {
                     None => "bad-op".to_string(),
                     Some(rd) => {
                         let mut b = vec![0u8; *n];
-                        let a = match rt.block_on(rd.read(&mut b)) {
+                        let a = match bo(rd.read(&mut b)) {
                             Ok(k) => format!("ok {}", hex(&b[..k])),
                             Err(e) => err_class(&e).to_string(),
                         };
@@ -695,11 +703,10 @@ fn run_case(m: &mut Model, rep: &mut Report, stream: &str, chunk: usize, max: Op
                 (format!("rread {rid} {n}"), x)
             }
             Op::RAll(rid) => {
-                let rt = &r.rt;
                 let x = match r.readers.get_mut(rid) {
                     None => "bad-op".to_string(),
                     Some(rd) => {
-                        let a = match rt.block_on(rd.read_all()) {
+                        let a = match bo(rd.read_all()) {
                             Ok(d) => format!("ok {}", hex(&d)),
                             Err(e) => err_class(&e).to_string(),
                         };
@@ -709,11 +716,10 @@ fn run_case(m: &mut Model, rep: &mut Report, stream: &str, chunk: usize, max: Op
                 (format!("rall {rid}"), x)
             }
             Op::RVerify(rid) => {
-                let rt = &r.rt;
                 let x = match r.readers.get_mut(rid) {
                     None => "bad-op".to_string(),
                     Some(rd) => {
-                        let a = match rt.block_on(rd.verify()) {
+                        let a = match bo(rd.verify()) {
                             Ok(b) => format!("ok {b}"),
                             Err(e) => err_class(&e).to_string(),
                         };
@@ -761,7 +767,7 @@ fn run_case(m: &mut Model, rep: &mut Report, stream: &str, chunk: usize, max: Op
             out.wrote = true;
             // O1: read returns written (one call or streamed)
             let id = r.ids[ix].clone();
-            let back = r.rt.block_on(r.blob.get(&id));
+            let back = bo(r.blob.get(&id));
             if !r.damaged && back.as_ref().ok() != Some(&bytes) {
                 rp!().violation("tensor_blob.get/read_differs_from_written", "get() right after a successful write does not return the written bytes", input());
                 fail(&mut out, "violation", "tensor_blob.get/read_differs_from_written");
@@ -769,7 +775,7 @@ fn run_case(m: &mut Model, rep: &mut Report, stream: &str, chunk: usize, max: Op
             if !r.damaged {
                 // chunk-count boundary oracle: ceil(len / chunk) chunks
                 let want = if bytes.is_empty() { 0 } else { (bytes.len() + chunk - 1) / chunk };
-                let got = r.rt.block_on(r.blob.metadata(&id)).map(|m| m.chunk_count).unwrap_or(usize::MAX);
+                let got = bo(r.blob.metadata(&id)).map(|m| m.chunk_count).unwrap_or(usize::MAX);
                 if got != want {
                     rp!().violation("tensor_blob.writer/chunk_count", "chunk_count != ceil(len/chunk_size)", input());
                     fail(&mut out, "violation", "tensor_blob.writer/chunk_count");
@@ -816,7 +822,7 @@ fn run_case(m: &mut Model, rep: &mut Report, stream: &str, chunk: usize, max: Op
             // O1 over time / delete_preserves_others / gc keeps live data: every live artifact still reads back
             for (ix, e) in r.expect.clone() {
                 let id = r.ids[ix].clone();
-                let back = r.rt.block_on(r.blob.get(&id));
+                let back = bo(r.blob.get(&id));
                 match e {
                     Some(bytes) => {
                         if back.as_ref().ok() != Some(&bytes) {
@@ -831,7 +837,7 @@ fn run_case(m: &mut Model, rep: &mut Report, stream: &str, chunk: usize, max: Op
                         // O1 through the streaming reader: read(buf) with a buffer size that varies with the step
                         if (i + ix) % 3 == 0 {
                             let bufsz = 1 + (i * 7 + ix * 3) % (2 * chunk + 2);
-                            if read_by_buffers(&r.rt, &r.blob, &id, bufsz).ok().as_ref() != Some(&bytes) {
+                            if read_by_buffers(&r.blob, &id, bufsz).ok().as_ref() != Some(&bytes) {
                                 rp!().violation("tensor_blob.reader/read_differs_from_written", "BlobReader::read() with a fixed buffer size, repeated until it returns 0, does not return the written bytes", input());
                                 fail(&mut out, "violation", "tensor_blob.reader/read_differs_from_written");
                             }
@@ -924,11 +930,11 @@ fn run_case(m: &mut Model, rep: &mut Report, stream: &str, chunk: usize, max: Op
     // ---- O4: after deleting every artifact a full collection leaves no chunks
     if out.failed.is_none() {
         r.writers.clear();
-        let listed = r.rt.block_on(r.blob.list(None)).unwrap_or_default();
+        let listed = bo(r.blob.list(None)).unwrap_or_default();
         for id in &listed {
-            let _ = r.rt.block_on(r.blob.delete(id));
+            let _ = bo(r.blob.delete(id));
         }
-        let _ = r.rt.block_on(r.blob.full_gc());
+        let _ = bo(r.blob.full_gc());
         let left = r.ts.scan(CHUNK_PREFIX).len();
         let metas = r.ts.scan(META_PREFIX).len();
         if left != 0 || metas != 0 {
@@ -1241,7 +1247,7 @@ fn directed(m: &mut Model, rep: &mut Report) {
     // verify cannot see a change that leaves the concatenation intact (two chunks altered at once):
     // outside the per-chunk quantifier of the property as far as the artifact's bytes are concerned; recorded, not judged.
     let r = Real::new(2, None);
-    let id = r.rt.block_on(r.blob.put("f", &[1, 2, 3, 4], PutOptions::default())).unwrap();
+    let id = bo(r.blob.put("f", &[1, 2, 3, 4], PutOptions::default())).unwrap();
     let keys = r.ts.get(&format!("{META_PREFIX}{id}")).ok().and_then(|t| t_ptrs(&t, "_chunks")).unwrap_or_default();
     for (k, d) in keys.iter().zip([vec![1u8], vec![2u8, 3, 4]]) {
         let mut rec = r.ts.get(k).unwrap();
@@ -1249,7 +1255,7 @@ fn directed(m: &mut Model, rep: &mut Report) {
         r.ts.put(k, rec).unwrap();
     }
     let v = r.blob.verify(&id);
-    let g = r.rt.block_on(r.blob.get(&id)).ok();
+    let g = bo(r.blob.get(&id)).ok();
     rep.observe(json!({"what": "chunk boundary moved inside the store (chunks [1,2][3,4] rewritten as [1][2,3,4]): whole-artifact checksum verify",
         "verify": format!("{v:?}"), "bytes_still_equal": g == Some(vec![1, 2, 3, 4]),
         "lean": "verify_boundary_shift_undetected_witness"}));
@@ -1292,20 +1298,16 @@ fn thread_stream(rep: &mut Report, r: &mut Rng, rounds: u64) {
     for round in 0..rounds {
         let c = 4usize;
         let ts = TensorStore::new();
-        let mk = |ts: &TensorStore, age: u64| {
-            let rt = tokio::runtime::Builder::new_current_thread().enable_all().build().unwrap();
-            let b = rt.block_on(BlobStore::new(ts.clone(), cfg(c, None).with_gc_min_age(Duration::from_secs(age)))).unwrap();
-            (rt, b)
-        };
+        let mk = |ts: &TensorStore, age: u64| bo(BlobStore::new(ts.clone(), cfg(c, None).with_gc_min_age(Duration::from_secs(age)))).unwrap();
         let nblocks = 24 + r.below(40) as usize;
         let shared: Vec<u8> = (0..nblocks * c).map(|i| (i / c) as u8).collect();
         let nthreads = 2 + r.below(3) as usize;
         let with_gc = r.chance(1, 2);
         let with_full = !with_gc && r.chance(1, 2);
         // pre-existing artifacts with the same content, to be deleted concurrently
-        let (rt0, b0) = mk(&ts, 0);
+        let b0 = mk(&ts, 0);
         let npre = r.below(3) as usize;
-        let pre: Vec<String> = (0..npre).map(|_| rt0.block_on(b0.put("p", &shared, PutOptions::default())).unwrap()).collect();
+        let pre: Vec<String> = (0..npre).map(|_| bo(b0.put("p", &shared, PutOptions::default())).unwrap()).collect();
         // make every existing record old enough for gc_cycle
         for k in ts.scan(CHUNK_PREFIX) {
             let mut rec = ts.get(&k).unwrap();
@@ -1321,10 +1323,9 @@ fn thread_stream(rep: &mut Report, r: &mut Rng, rounds: u64) {
                 let bar = barrier.clone();
                 let data = shared.clone();
                 hs.push(sc.spawn(move || {
-                    let rt = tokio::runtime::Builder::new_current_thread().enable_all().build().unwrap();
-                    let b = rt.block_on(BlobStore::new(ts, cfg(c, None))).unwrap();
+                    let b = bo(BlobStore::new(ts, cfg(c, None))).unwrap();
                     bar.wait();
-                    rt.block_on(b.put("w", &data, PutOptions::default())).ok()
+                    bo(b.put("w", &data, PutOptions::default())).ok()
                 }));
             }
             let mut ds = Vec::new();
@@ -1333,24 +1334,22 @@ fn thread_stream(rep: &mut Report, r: &mut Rng, rounds: u64) {
                 let bar = barrier.clone();
                 let id = id.clone();
                 ds.push(sc.spawn(move || {
-                    let rt = tokio::runtime::Builder::new_current_thread().enable_all().build().unwrap();
-                    let b = rt.block_on(BlobStore::new(ts, cfg(c, None))).unwrap();
+                    let b = bo(BlobStore::new(ts, cfg(c, None))).unwrap();
                     bar.wait();
-                    let _ = rt.block_on(b.delete(&id));
+                    let _ = bo(b.delete(&id));
                 }));
             }
             if with_gc || with_full {
                 let ts = ts.clone();
                 let bar = barrier.clone();
                 ds.push(sc.spawn(move || {
-                    let rt = tokio::runtime::Builder::new_current_thread().enable_all().build().unwrap();
-                    let b = rt.block_on(BlobStore::new(ts, cfg(c, None).with_gc_min_age(Duration::from_secs(0)))).unwrap();
+                    let b = bo(BlobStore::new(ts, cfg(c, None).with_gc_min_age(Duration::from_secs(0)))).unwrap();
                     bar.wait();
                     for _ in 0..3 {
                         if with_full {
-                            let _ = rt.block_on(b.full_gc());
+                            let _ = bo(b.full_gc());
                         } else {
-                            let _ = rt.block_on(b.gc());
+                            let _ = bo(b.gc());
                         }
                     }
                 }));
@@ -1369,7 +1368,7 @@ fn thread_stream(rep: &mut Report, r: &mut Rng, rounds: u64) {
         // oracle: surviving artifacts read back
         let mut bad = false;
         for id in &kept {
-            if rt0.block_on(b0.get(id)).ok().as_ref() != Some(&shared) {
+            if bo(b0.get(id)).ok().as_ref() != Some(&shared) {
                 bad = true;
             }
         }
@@ -1385,15 +1384,15 @@ fn thread_stream(rep: &mut Report, r: &mut Rng, rounds: u64) {
             lost_update += 1;
             // sequential continuation: delete all but one survivor, age, gc_cycle
             for id in kept.iter().skip(1) {
-                let _ = rt0.block_on(b0.delete(id));
+                let _ = bo(b0.delete(id));
             }
             for k in ts.scan(CHUNK_PREFIX) {
                 let mut rec = ts.get(&k).unwrap();
                 rec.set("_created", TensorValue::Scalar(ScalarValue::Int(1)));
                 ts.put(&k, rec).unwrap();
             }
-            let _ = rt0.block_on(b0.gc());
-            let survivor_ok = kept.first().map(|id| rt0.block_on(b0.get(id)).ok().as_ref() == Some(&shared)).unwrap_or(true);
+            let _ = bo(b0.gc());
+            let survivor_ok = kept.first().map(|id| bo(b0.get(id)).ok().as_ref() == Some(&shared)).unwrap_or(true);
             rep.violation("tensor_blob.refs/lost_update", "real threads: concurrent put/delete of identical content left a refcount below the number of live references (read-modify-write on `_refs` is not atomic)", input.clone());
             if !survivor_ok {
                 rep.violation("tensor_blob.gc/live_chunk_collected", "after a refcount lost update, deleting the other artifacts and running gc() removed chunks of a live artifact", input);
@@ -1442,7 +1441,7 @@ const MC_CONC: u64 = 500; // the collector threads take records older than this
 fn conc_seq_op(r: &mut Real, m: &mut Model, rep: &mut Report, stream: &str, t: u64, op: &Op, input: &dyn Fn() -> Value) -> bool {
     let (line, imp): (String, String) = match op {
         Op::Put(d) => {
-            let a = match r.rt.block_on(r.blob.put("f", d, PutOptions::default())) {
+            let a = match bo(r.blob.put("f", d, PutOptions::default())) {
                 Ok(id) => {
                     let ix = r.alpha(&id);
                     r.expect.insert(ix, Some(d.clone()));
@@ -1453,9 +1452,9 @@ fn conc_seq_op(r: &mut Real, m: &mut Model, rep: &mut Report, stream: &str, t: u
             (format!("put {t} {}", hex(d)), a)
         }
         Op::Abandon(ps) => {
-            let mut w = r.rt.block_on(r.blob.writer("f", PutOptions::default())).unwrap();
+            let mut w = bo(r.blob.writer("f", PutOptions::default())).unwrap();
             for p in ps {
-                let _ = r.rt.block_on(w.write(p));
+                let _ = bo(w.write(p));
             }
             drop(w);
             r.slack = true;
@@ -1463,7 +1462,7 @@ fn conc_seq_op(r: &mut Real, m: &mut Model, rep: &mut Report, stream: &str, t: u
         }
         Op::Delete(a) => {
             let id = r.uuid_of(*a);
-            let x = match r.rt.block_on(r.blob.delete(&id)) {
+            let x = match bo(r.blob.delete(&id)) {
                 Ok(()) => {
                     r.expect.insert(*a as usize, None);
                     "ok".to_string()
@@ -1474,12 +1473,12 @@ fn conc_seq_op(r: &mut Real, m: &mut Model, rep: &mut Report, stream: &str, t: u
         }
         Op::Gc { back, age } => {
             let thr = t.saturating_sub(*back);
-            let b = r.rt.block_on(BlobStore::new(r.ts.clone(), cfg(r.chunk, None).with_gc_min_age(min_age_for(thr)))).unwrap();
-            let s = r.rt.block_on(b.gc()).unwrap();
+            let b = bo(BlobStore::new(r.ts.clone(), cfg(r.chunk, None).with_gc_min_age(min_age_for(thr)))).unwrap();
+            let s = bo(b.gc()).unwrap();
             (format!("gc {} {}", thr + 1 + age, age), format!("ok {} {}", s.deleted, s.freed_bytes))
         }
         Op::FullGc => {
-            let x = match r.rt.block_on(r.blob.full_gc()) {
+            let x = match bo(r.blob.full_gc()) {
                 Ok(s) => format!("ok {} {}", s.deleted, s.freed_bytes),
                 Err(e) => err_class(&e).to_string(),
             };
@@ -1547,14 +1546,13 @@ fn run_conc(m: &mut Model, rep: &mut Report, stream: &str, case: &ConcCase, rng:
             let res = results.clone();
             let del_id = if let TSpec::Del(a) = &sp { r.uuid_of(*a) } else { String::new() };
             Box::new(move || {
-                let rt = tokio::runtime::Builder::new_current_thread().enable_all().build().unwrap();
                 let conf = cfg(c, None).with_gc_min_age(Duration::from_secs(3600));
-                let b = rt.block_on(BlobStore::new(ts, conf)).unwrap();
+                let b = bo(BlobStore::new(ts, conf)).unwrap();
                 let out: Result<String, String> = match &sp {
-                    TSpec::Put(d) => rt.block_on(b.put("w", d, PutOptions::default())).map_err(|e| err_class(&e).to_string()),
-                    TSpec::Del(_) => rt.block_on(b.delete(&del_id)).map(|_| "ok".to_string()).map_err(|e| err_class(&e).to_string()),
-                    TSpec::Gc => rt.block_on(b.gc()).map(|s| format!("{} {}", s.deleted, s.freed_bytes)).map_err(|e| err_class(&e).to_string()),
-                    TSpec::FullGc => rt.block_on(b.full_gc()).map(|s| format!("{} {}", s.deleted, s.freed_bytes)).map_err(|e| err_class(&e).to_string()),
+                    TSpec::Put(d) => bo(b.put("w", d, PutOptions::default())).map_err(|e| err_class(&e).to_string()),
+                    TSpec::Del(_) => bo(b.delete(&del_id)).map(|_| "ok".to_string()).map_err(|e| err_class(&e).to_string()),
+                    TSpec::Gc => bo(b.gc()).map(|s| format!("{} {}", s.deleted, s.freed_bytes)).map_err(|e| err_class(&e).to_string()),
+                    TSpec::FullGc => bo(b.full_gc()).map(|s| format!("{} {}", s.deleted, s.freed_bytes)).map_err(|e| err_class(&e).to_string()),
                 };
                 res.lock().unwrap()[i] = Some(out);
             }) as Box<dyn FnOnce() + Send>
@@ -1673,7 +1671,21 @@ fn run_conc(m: &mut Model, rep: &mut Report, stream: &str, case: &ConcCase, rng:
     let targets: BTreeSet<usize> = case.threads.iter().filter_map(|t| if let TSpec::Del(a) = t { Some(*a as usize) } else { None }).collect();
     let has_full = case.threads.iter().any(|t| matches!(t, TSpec::FullGc));
     let has_gc = case.threads.iter().any(|t| matches!(t, TSpec::Gc));
-    let site = if has_full { "tensor_blob.full_gc/live_chunk_collected" } else if has_gc { "tensor_blob.gc/live_chunk_collected" } else { "tensor_blob.conc/live_chunk_lost_without_collector" };
+    let has_writer = case.threads.iter().any(|t| matches!(t, TSpec::Put(_)));
+    let n_del = case.threads.iter().filter(|t| matches!(t, TSpec::Del(_))).count();
+    // mixes for which a theorem says no untouched artifact can be damaged get their own (unlisted) classes:
+    //   no collector thread            -> concurrent_no_collector_partial
+    //   no writer, distinct deleters   -> concurrent_deleters_collectors_safe
+    let proved_safe = !has_writer && targets.len() == n_del;
+    let site = if !has_full && !has_gc {
+        "tensor_blob.conc/live_chunk_lost_without_collector"
+    } else if proved_safe {
+        "tensor_blob.conc/collector_damaged_artifact_next_to_deleters_only"
+    } else if has_full {
+        "tensor_blob.full_gc/live_chunk_collected"
+    } else {
+        "tensor_blob.gc/live_chunk_collected"
+    };
     for (ix, d) in new_expect {
         r.expect.insert(ix, Some(d));
     }
@@ -1682,7 +1694,7 @@ fn run_conc(m: &mut Model, rep: &mut Report, stream: &str, case: &ConcCase, rng:
     }
     let survivors_ok = |r: &Real| -> bool {
         r.expect.iter().all(|(ix, e)| match e {
-            Some(bytes) => r.rt.block_on(r.blob.get(&r.ids[*ix])).ok().as_ref() == Some(bytes),
+            Some(bytes) => bo(r.blob.get(&r.ids[*ix])).ok().as_ref() == Some(bytes),
             None => true,
         })
     };
@@ -1693,7 +1705,9 @@ fn run_conc(m: &mut Model, rep: &mut Report, stream: &str, case: &ConcCase, rng:
         occurrences(&r.ts).iter().any(|(k, o)| r.ts.get(k).ok().and_then(|t| t_int(&t, "_refs")).unwrap_or(0) < *o)
     };
     if low_refs(&r) {
-        failures.push(("tensor_blob.refs/lost_update".to_string(), "after the interleaving a chunk's refcount is below the number of times existing artifacts list it".to_string()));
+        // without a writer and with distinct deleters a refcount can only end up too HIGH (a lost decrement)
+        let class = if proved_safe { "tensor_blob.conc/refs_below_occurrences_without_writer" } else { "tensor_blob.refs/lost_update" };
+        failures.push((class.to_string(), "after the interleaving a chunk's refcount is below the number of times existing artifacts list it".to_string()));
     }
     // ---- sequential suffix, then every surviving artifact again
     let mut t2 = T_CONC;
@@ -1702,7 +1716,13 @@ fn run_conc(m: &mut Model, rep: &mut Report, stream: &str, case: &ConcCase, rng:
         agreed &= conc_seq_op(&mut r, m, rep, stream, t2, op, &input);
     }
     if !case.post.is_empty() && !survivors_ok(&r) {
-        let post_site = if case.post.iter().any(|o| matches!(o, Op::FullGc)) { "tensor_blob.full_gc/live_chunk_collected" } else { "tensor_blob.gc/live_chunk_collected" };
+        let post_site = if proved_safe {
+            "tensor_blob.conc/collector_damaged_artifact_next_to_deleters_only"
+        } else if case.post.iter().any(|o| matches!(o, Op::FullGc)) {
+            "tensor_blob.full_gc/live_chunk_collected"
+        } else {
+            "tensor_blob.gc/live_chunk_collected"
+        };
         failures.push((post_site.to_string(), "after the interleaving and a later sequential collection an artifact that was never deleted cannot be read back".to_string()));
     }
     ConcOut { sched, model_line, failures, agreed }
@@ -1848,26 +1868,16 @@ fn main() {
     let root = Rng::new(args.seed);
     let scale: u64 = if args.thorough { 12 } else { 1 };
 
-    let t0 = std::time::Instant::now();
-    let mut lap = |what: &str| eprintln!("[{:7.2}s] {what}", t0.elapsed().as_secs_f64());
     directed(&mut m, &mut rep);
-    lap("directed");
     chunker_stream(&mut m, &mut rep, &mut root.fork("chunker"), 1500 * scale);
-    lap("chunker");
     run_stream(&mut m, &mut rep, &mut root.fork("seq"), "seq", 1200 * scale, false, false, false);
-    lap("seq");
     run_stream(&mut m, &mut rep, &mut root.fork("writers"), "writers", 600 * scale, true, false, false);
-    lap("writers");
     run_stream(&mut m, &mut rep, &mut root.fork("damage"), "damage", 400 * scale, false, true, false);
-    lap("damage");
     run_stream(&mut m, &mut rep, &mut root.fork("api"), "api", 350 * scale, false, false, true);
     run_stream(&mut m, &mut rep, &mut root.fork("api-damage"), "api-damage", 150 * scale, false, true, true);
-    lap("api");
     thread_stream(&mut rep, &mut root.fork("threads"), 300 * scale);
-    lap("threads");
     conc_directed(&mut m, &mut rep, &mut root.fork("conc-directed"));
     conc_stream(&mut m, &mut rep, &mut root.fork("conc"), 250 * scale);
-    lap("conc");
 
     rep.note("SHA-256 is opaque: the model is keyed by the chunk bytes themselves; the harness checks every new chunk record is keyed by compute_hash(data)");
     rep.note("`_created` stamps are rewritten to logical ticks by the harness (no clock hook); the strict `<` of gc_cycle is therefore exercised in ticks, not in wall-clock seconds");
